@@ -41,7 +41,9 @@ type Step struct {
 	ExtKind  string `json:"ext_kind"`
 }
 
-var texts = []string{"{a}", "{b}", "{a b}", "{n(x:3)}", "{ nope }", "{a", "query Q{b} query R{a}"}
+var texts = []string{"{a}", "{b}", "{a b}", "{n(x:3)}", "{ nope }", "{a", "query Q{b} query R{a}",
+	// texts that differ only in insignificant characters are different documents with different digests
+	" {a}\n", "{b} ", "\t{a b}", " ", "\n\t", "\ufeff{a}", "{a},", "#c\n{b}"}
 
 func sha(t string) string { h := sha256.Sum256([]byte(t)); return hex.EncodeToString(h[:]) }
 
@@ -316,6 +318,20 @@ func (h *harness) playHistory(hist []Step) (what, kind string) {
 		}
 		if s.Query != "" && strings.HasPrefix(s.ModelExt, "(ext one") {
 			registered[s.Query] = true
+		}
+		if s.Query != "" {
+			// a request that supplies text executes the supplied text, whatever hash it claims
+			ref := h.reference(s.Query)
+			if o.Body != ref.Body || o.Status != ref.Status || !reflect.DeepEqual(o.Resolved, ref.Resolved) {
+				return fmt.Sprintf("step %d: request supplying text %q did not execute that text: got %d %s (resolvers %v), the text alone gives %d %s (resolvers %v)", i, s.Query, o.Status, o.Body, o.Resolved, ref.Status, ref.Body, ref.Resolved), "property"
+			}
+			if strings.HasPrefix(s.ModelExt, "(ext one") {
+				// … and registers it under its true digest: an immediate hash-only lookup must find exactly it
+				d := sha256.Sum256([]byte(s.Query))
+				if got, ok := w.st.m[string(d[:])]; !ok || got != s.Query {
+					return fmt.Sprintf("step %d: text %q sent with a version-1 extension is not stored under its own digest %x (stored there: %q)", i, s.Query, d, got), "property"
+				}
+			}
 		}
 		if s.ModelExt == "none" || strings.HasPrefix(s.ModelExt, "(ext other") {
 			// behaves exactly as if the feature were disabled
